@@ -186,6 +186,14 @@ def same_day_total(R, rep):
         rep.unresolved("R3", "same-day-total", "no Decimal-valued scan of the timeline for a given date found below the cascade")
 
 
+TEXT_ALTERING = ("lines", "split", "split_terminator", "split_inclusive", "split_whitespace", "split_once", "rsplit", "rsplit_once", "splitn",
+                 "filter", "filter_map", "skip", "skip_while", "take", "take_while", "step_by", "dedup", "dedup_by", "dedup_by_key", "retain",
+                 "retain_mut", "truncate", "drain", "remove", "pop", "swap_remove", "clear", "trim", "trim_start", "trim_end", "trim_matches",
+                 "trim_start_matches", "trim_end_matches", "strip_prefix", "strip_suffix", "replace", "replacen", "replace_range",
+                 "to_lowercase", "to_uppercase", "to_ascii_lowercase", "to_ascii_uppercase", "chars", "char_indices", "bytes", "split_off",
+                 "split_at", "get", "get_unchecked", "extract_if")
+
+
 def cli_join(R, rep):
     F = R.F
     main = F.bodies.get("cgt_tool::main")
@@ -204,6 +212,24 @@ def cli_join(R, rep):
             rep.ob("R4", "cli:files-joined-by-newline", ok, "input files are concatenated with a line break" if ok else
                    f"input files are joined with {sep!r}: the last line of one file and the first of the next would fuse", b.loc(t["sp"]),
                    key="R4:cli:join-separator")
+    # …and every file is joined WHOLE: between `read_to_string` and the join nothing takes the text apart, drops or rewrites lines
+    # (`lines`/`split` + `filter`, `dedup`, `retain`, `trim`, `replace`, …) — in the joiner, its closures and the CLI helpers it calls.
+    # A joiner that skips lines "already supplied by an earlier file" turns two identical part fills written in two files into one,
+    # while the same two lines in one file stay two (seeded change C06-s9).
+    region, todo = [], [b]
+    while todo:
+        x = todo.pop()
+        if x in region:
+            continue
+        region.append(x)
+        todo += [c for c in F.bodies.values() if c.kind == "closure" and c.parent == x.id]
+        todo += [F.bodies[c] for c in F.callgraph().get(x.id, ()) if c in F.bodies and F.bodies[c].crate == "cgt_tool" and P.user_written(F, F.bodies[c])]
+    bad = [(x, t, parse_callee(t["callee"])[2]) for x in region for _, t in x.calls() if parse_callee(t["callee"])[2] in TEXT_ALTERING
+           and not t["callee"].startswith("std::path") and "std::ffi" not in t["callee"]]
+    rep.ob("R4", "cli:files-joined-whole", not bad, f"the joiner and its {len(region) - 1} helpers/closures never take a file's text apart" if not bad else
+           "; ".join(f"`{x.short}` calls `{m}`" for x, t, m in bad[:4]) + ": the text of an input file is taken apart or thinned between reading and joining — "
+           "what is dropped or rewritten depends on how the ledger is partitioned into files", bad[0][0].loc(bad[0][1]["sp"]) if bad else b.loc(),
+           key="R4:cli:file-text-altered")
     # both parse and report use it
     users = {cb.short for cb, i, t in F.call_sites(lambda c: c == b.id)}
     n = sum(1 for cb, i, t in F.call_sites(lambda c: c == b.id))
